@@ -11,6 +11,7 @@ import (
 	"github.com/zerx-lab/wordZero/pkg/document"
 
 	"verifharness/internal/core"
+	"verifharness/internal/gen"
 	"verifharness/internal/opc"
 	"verifharness/internal/rng"
 )
@@ -220,6 +221,23 @@ func c12Case(c *core.Ctx) *core.Result {
 	d.AddParagraph("page settings")
 	rec := defaultRec()
 	var log []string
+	if c.Case%10 == 9 {
+		// a document of another producer with two sections: the first ends in a paragraph that carries its own w:sectPr (Letter,
+		// wide margins), the settings of the document's last section are the body-level w:sectPr (A4, 25.4 mm margins) - those are
+		// what the page-setting calls are about and what is written back as the body-level element
+		pkg := gen.MinimalPackage(func(m map[string]string) {
+			first := `<w:p><w:pPr><w:sectPr><w:pgSz w:w="12240" w:h="15840"/><w:pgMar w:top="2000" w:right="2000" w:bottom="2000" w:left="2000" w:header="400" w:footer="400" w:gutter="0"/></w:sectPr></w:pPr><w:r><w:t>end of section one</w:t></w:r></w:p>`
+			last := `<w:sectPr><w:pgSz w:w="11906" w:h="16838"/><w:pgMar w:top="1440" w:right="1440" w:bottom="1440" w:left="1440" w:header="720" w:footer="720" w:gutter="0"/><w:docGrid w:type="lines" w:linePitch="312"/></w:sectPr>`
+			m["word/document.xml"] = strings.Replace(m["word/document.xml"], "<w:body>", "<w:body>"+first, 1)
+			m["word/document.xml"] = strings.Replace(m["word/document.xml"], "</w:body>", last+"</w:body>", 1)
+		})
+		if od, err := document.OpenFromMemory(io.NopCloser(bytes.NewReader(pkg))); err == nil && od != nil && od.Body != nil {
+			d = od
+			rec.Fresh = false
+			log = append(log, "opened-two-sections")
+			res.Count("start:opened-document-with-two-sections", 1)
+		}
+	}
 	kinds := map[string]bool{}
 	anySetter := false
 	_ = anySetter
